@@ -8,6 +8,7 @@ import (
 	"sort"
 	"strings"
 	"sync"
+	"sync/atomic"
 	"unicode/utf8"
 
 	"golang.org/x/tools/go/ssa"
@@ -102,20 +103,21 @@ type mframe struct {
 }
 
 type mach struct {
-	c        *Ctx
-	globals  map[*ssa.Global]*mv
-	inited   map[*ssa.Package]bool
-	symHeap  map[string]*mv
-	steps    int
-	maxSteps int
-	finfo    map[*ssa.Function]map[ssa.Value]int32
-	cov      map[*ssa.Function]bool
-	ring     [32]*ssa.Function // the most recently entered functions (for witnesses)
-	ringPos  int
-	ownPkgs  map[*ssa.Package]bool // extra packages evaluated like the module's (self-test)
-	prog     *ssa.Program          // program of the code under evaluation when it is not the repository's (self-test)
-	depth    int
-	nsym     int
+	c          *Ctx
+	globals    map[*ssa.Global]*mv
+	inited     map[*ssa.Package]bool
+	symHeap    map[string]*mv
+	steps      int
+	maxSteps   int
+	finfo      map[*ssa.Function]map[ssa.Value]int32
+	cov        map[*ssa.Function]bool
+	crashCache map[*ssa.Function]*crashEntry
+	ring       [32]*ssa.Function // the most recently entered functions (for witnesses)
+	ringPos    int
+	ownPkgs    map[*ssa.Package]bool // extra packages evaluated like the module's (self-test)
+	prog       *ssa.Program          // program of the code under evaluation when it is not the repository's (self-test)
+	depth      int
+	nsym       int
 	// intercept is asked before any statically resolved call (module or not): handled=true → its result is used
 	intercept func(m *mach, fn *ssa.Function, args []mv) (mv, bool)
 	// external gives the meaning of a function the machine does not execute (outside the module or without body)
@@ -135,7 +137,7 @@ type mach struct {
 }
 
 func newMach(c *Ctx) *mach {
-	return &mach{c: c, globals: map[*ssa.Global]*mv{}, inited: map[*ssa.Package]bool{}, symHeap: map[string]*mv{}, maxSteps: 400000, finfo: map[*ssa.Function]map[ssa.Value]int32{}, cov: map[*ssa.Function]bool{}}
+	return &mach{c: c, globals: map[*ssa.Global]*mv{}, inited: map[*ssa.Package]bool{}, symHeap: map[string]*mv{}, maxSteps: 400000, finfo: map[*ssa.Function]map[ssa.Value]int32{}, cov: map[*ssa.Function]bool{}, crashCache: map[*ssa.Function]*crashEntry{}}
 }
 
 func (m *mach) sym(name string, t types.Type) *mSym { return &mSym{name: name, typ: t} }
@@ -175,16 +177,39 @@ func (m *mach) Call(fn *ssa.Function, args ...mv) (ret mv, out mOutcome) {
 // ---- what escaped from the entry points: panics and (nil, nil) / (value, error) results ----------------
 
 type crashEntry struct {
-	calls int
+	calls int64
 	first string // first witness
 }
 
 var crashMu sync.Mutex
 var crashLog = map[string]*crashEntry{}
-var covered sync.Map // *ssa.Function -> true: functions entered by some abstract run
+var crashByFn sync.Map // *ssa.Function -> *crashEntry
+var covered sync.Map   // *ssa.Function -> true: functions entered by some abstract run
+
+func crashEntryOf(m *mach, fn *ssa.Function) *crashEntry {
+	if e, ok := m.crashCache[fn]; ok {
+		return e
+	}
+	v, ok := crashByFn.Load(fn)
+	if !ok {
+		crashMu.Lock()
+		key := m.c.FuncKey(fn)
+		e := crashLog[key]
+		if e == nil {
+			e = &crashEntry{}
+			crashLog[key] = e
+		}
+		crashMu.Unlock()
+		v, _ = crashByFn.LoadOrStore(fn, e)
+	}
+	e := v.(*crashEntry)
+	m.crashCache[fn] = e
+	return e
+}
 
 func crashRecord(m *mach, fn *ssa.Function, args []mv, ret mv, out mOutcome) {
-	key := m.c.FuncKey(fn)
+	e := crashEntryOf(m, fn)
+	atomic.AddInt64(&e.calls, 1)
 	witness := ""
 	show := func() string {
 		var as []string
@@ -205,8 +230,12 @@ func crashRecord(m *mach, fn *ssa.Function, args []mv, ret mv, out mOutcome) {
 		witness = show() + " panics: " + out.why
 	case "ok":
 		// (result, error): exactly one of them
+		tp, ok := ret.(mTuple)
+		if !ok || len(tp) != 2 {
+			return
+		}
 		res := fn.Signature.Results()
-		if tp, ok := ret.(mTuple); ok && res.Len() == 2 && res.At(1).Type().String() == "error" {
+		if res.Len() == 2 && res.At(1).Type().String() == "error" {
 			if _, isPtr := res.At(0).Type().Underlying().(*types.Pointer); isPtr {
 				isNil := func(v mv) (bool, bool) {
 					switch t := v.(type) {
@@ -231,14 +260,11 @@ func crashRecord(m *mach, fn *ssa.Function, args []mv, ret mv, out mOutcome) {
 			}
 		}
 	}
-	crashMu.Lock()
-	e := crashLog[key]
-	if e == nil {
-		e = &crashEntry{}
-		crashLog[key] = e
+	if witness == "" {
+		return
 	}
-	e.calls++
-	if witness != "" && (e.first == "" || len(witness) < len(e.first)) {
+	crashMu.Lock()
+	if e.first == "" || len(witness) < len(e.first) {
 		e.first = witness
 	}
 	crashMu.Unlock()
